@@ -659,6 +659,16 @@ def distractors_for(template, files, draw):
 def match_case_strategy(draw):
     sets = []
     anchor = draw(instants("second"))
+    boundary = None
+    if draw(st.integers(0, 2)) == 0:
+        # focus on a change of the day (month, year): the files start shortly
+        # before it and reach over it, the period may begin right after it -
+        # typhon then has to look back into the previous directory, also for
+        # files whose duration comes from time_coverage
+        y, m, d = draw(st.sampled_from(LATTICE_DATES))
+        boundary = dt.datetime(y, m, d)
+        anchor = boundary - dt.timedelta(seconds=draw(st.sampled_from(
+            [1, 30, 300, 1800, 3000])))
     for k in range(2):
         tpl = draw(templates(max_dirs=2,
                              end_styles=draw(st.sampled_from(
@@ -727,6 +737,9 @@ def match_case_strategy(draw):
         st.just(lo - dt.timedelta(days=2)),
         st.sampled_from(bounds),
         st.sampled_from(bounds).map(lambda b: b - dt.timedelta(seconds=1))))
+    if boundary is not None and draw(st.booleans()):
+        start = boundary + dt.timedelta(seconds=draw(st.sampled_from(
+            [0, 1, 60, 1801])))
     end = draw(st.one_of(
         st.just(hi + dt.timedelta(days=2)),
         st.sampled_from(bounds).map(lambda b: b + dt.timedelta(seconds=1)),
@@ -737,4 +750,5 @@ def match_case_strategy(draw):
     mi = draw(st.one_of(st.none(), st.fixed_dictionaries({
         "seconds": st.sampled_from([0, 1, 30, 300, 1800, 86400]),
         "as": st.sampled_from(["int", "float", "str", "td"])})))
-    return {"sets": sets, "start": start, "end": end, "max_interval": mi}
+    return {"sets": sets, "start": start, "end": end, "max_interval": mi,
+            "boundary_focus": boundary is not None}
